@@ -281,8 +281,8 @@ GROUP_ACTIONS = {
     "WatchStart": ["WatchStart"], "Offer": ["Offer"], "AppNext": ["AppNext"], "Start": ["Start", "Start_untracked"],
     "FnReturn": ["FnReturn", "FnReturn_untracked", "FnReturn_watcher"], "HeartbeatSend": ["HeartbeatSend", "HeartbeatSend_lax"],
     "HeartbeatReply": ["HeartbeatReply_ok", "HeartbeatReply_fail"], "HeartbeatStop": ["HeartbeatStop"],
-    "GenCloseBegin": ["GenCloseBegin"], "GenCloseEnd": ["GenCloseEnd"], "Leave": ["Leave", "Leave_noid"],
-    "ReportErr": ["ReportErr", "ReportErr_closed"], "Backoff": ["Backoff"], "CloseCall": ["CloseCall"], "CloseReturn": ["CloseReturn"],
+    "GenCloseBegin": ["GenCloseBegin", "GenCloseBegin_lax"], "GenCloseEnd": ["GenCloseEnd"], "Leave": ["Leave", "Leave_noid"],
+    "ReportErr": ["ReportErr", "ReportErr_closed"], "Backoff": ["Backoff", "Backoff_lax", "Backoff_closed"], "CloseCall": ["CloseCall", "CloseCall_app", "CloseCall_early"], "CloseReturn": ["CloseReturn"],
 }
 
 
